@@ -60,6 +60,11 @@ def _show(v, depth=0) -> str:
     return type(v).__name__
 
 
+def _rowkey(name: str) -> str:
+    # numeric order of temporaries (their counter is global to the session: "%tmp12" must not sort before "%tmp9")
+    return re.sub(r"%tmp(\d+)", lambda m: "%tmp" + m.group(1).zfill(9), name)
+
+
 def _dump_checked(defn) -> str:
     out = []
     cfg = getattr(defn, "cfg", None)
@@ -69,8 +74,8 @@ def _dump_checked(defn) -> str:
         # rows are compared as sorted lists: the order of variables inside a block signature does vary with the worklist order
         # (liveness dicts keep insertion order and `eq` compares key sets only), but compile_bb re-orders every row with
         # sort_vars (name order) before it becomes HUGR ports, so the in-row order is not observable in the output
-        ins = sorted(f"{v}" for v in bb.sig.input_row) if bb is not cfg.entry_bb else [f"{v}" for v in bb.sig.input_row]
-        outs = [sorted(f"{v}" for v in row) for row in bb.sig.output_rows]
+        ins = sorted((f"{v}" for v in bb.sig.input_row), key=_rowkey) if bb is not cfg.entry_bb else [f"{v}" for v in bb.sig.input_row]
+        outs = [sorted((f"{v}" for v in row), key=_rowkey) for row in bb.sig.output_rows]
         out.append(f"bb{bb.idx} in={ins} out={outs} succ={[s.idx for s in bb.successors]} pred={_show(bb.branch_pred)} stmts={_show(bb.statements)}")
     return "\n".join(out)
 
